@@ -509,17 +509,17 @@ def make_group(rng: random.Random, ctx: GenCtx) -> Optional[Dict[str, Any]]:
     function is additionally compared with the pristine build of (contract, path)."""
     if not ctx.group_cfgs:
         return None
-    base = rng.choice(ctx.group_cfgs)
+    picked = rng.sample(ctx.group_cfgs, min(len(ctx.group_cfgs), rng.choice([1, 2, 2, 2, 3])))
     contracts = []
-    paths: Dict[str, List[str]] = {}
-    for c in base["contracts"]:
+    for j, c in enumerate(picked):
         allp = ctx.paths.get(c["cid"], [["B0"]])
-        k = rng.randrange(1, min(5, len(allp)) + 1)
+        k = rng.randrange(1, min(4, len(allp)) + 1)
         chosen = rng.sample(allp, k)
         if rng.random() < 0.3:
             chosen.append(list(rng.choice(chosen)))  # same path twice under another name
         fs = [{"path": p} for p in chosen]
-        contracts.append({"name": c["name"], "cid": c["cid"], "type": c["type"], "version": c["version"], "functions": fs})
+        ctype = "LogicSig" if rng.random() < 0.3 else "ApprovalProgram"
+        contracts.append({"name": "K%d" % j, "cid": c["cid"], "type": ctype, "version": c["version"], "functions": fs})
 
     def finish(cs: List[Dict[str, Any]], shuffle: bool) -> Tuple[str, Dict[str, List[str]]]:
         cs2 = []
@@ -540,6 +540,10 @@ def make_group(rng: random.Random, ctx: GenCtx) -> Optional[Dict[str, Any]]:
             cs2.append(dict(c, functions=named))
         if shuffle and rng.random() < 0.5:
             cs2.reverse()
+        if shuffle:
+            # the order in which the operations (groups) are listed is free as well; detector
+            # outputs are compared as a multiset over groups
+            rng.shuffle(groups)
         return group_yaml(cs2, groups), pmap
 
     canon_yaml, pmap = finish(contracts, False)
